@@ -738,8 +738,14 @@ func runScenario(cfg Config, sc Scenario) (fail *Failure) {
 				}
 				return r.member(want) // a select function is free to ignore the candidates it is offered
 			}
+			acfg := cluster.NewActivationConfig().WithSelectMemberFunc(sel)
+			if sc.ID%2 == 1 {
+				// the region is information for the select function, nothing else: where the members say they are does
+				// not decide who is capable
+				acfg = acfg.WithRegion("mars")
+			}
 			for _, x := range r.expand(st.I) {
-				pid := n.c.Activate(st.K, cluster.NewActivationConfig().WithID(x).WithSelectMemberFunc(sel))
+				pid := n.c.Activate(st.K, acfg.WithID(x))
 				got := "nil"
 				if pid != nil {
 					got = r.name[pid.Address]
